@@ -657,8 +657,9 @@ struct json_object *json_tokener_parse_ex(struct json_tokener *tok, const char *
 				MC_DEBUG("json_tokener_comment: %s\n", tok->pb->buf);
 				state = json_tokener_state_eatws;
 			}
-			else
+			else if (c != '*')
 			{
+				/* another '*' may still be the one that ends the comment */
 				state = json_tokener_state_comment;
 			}
 			break;
